@@ -1,27 +1,42 @@
 """C17 — after a cancel is accepted no further task starts and the workflow ends (engine-level: Mode-A trace differential + monitors; see harness/engine_suites.py)."""
 from __future__ import annotations
 
-from harness import engine_suites, synth_suites
+from harness import engine_pairs, engine_suites, synth_suites
 
 RULE = ("random workflows (1-5 stages, every join type, scripted task outcomes incl. polling / transient / jump / suspend) x "
         "delivery schedules (fifo | random order | random + redelivery of unacknowledged messages | arbitrary incl. early re-polls), "
         "a cancel request injected before a random delivery step; every op is applied to the REAL engine and the Lean model, the state line after every op is compared; "
         "a trace is distinct by (spec, op list) and non-trivial when it has >= 8 ops and a non-FIFO choice or an injected op;"
-        " PLUS the synthetic-stage family (harness/synth_suites.py, IMPLEMENTATION-ONLY: monitors on real-engine traces, no model line): workflows of 1-3 top-level stages (single | chain | two parallel roots | fan-in), some with 1-2 pre-declared STAGE_BEFORE and / or STAGE_AFTER children (children 1 task, parents 0-2; task results succeed | terminal | fail-continue | poll then succeed | suspend), stored through the real store, driven by the same schedule modes with ALWAYS one cancel: before a random step, or (45 %) directed into the window in which a parent waits for a planned, not yet started child (StartStage(child) queued), the CancelWorkflow then usually delivered at once; kills inside CancelWorkflow deliveries; judged by smon_c17 and the transition-table monitor")
+        " PLUS the synthetic-stage family (harness/synth_suites.py, IMPLEMENTATION-ONLY: monitors on real-engine traces, no model line): workflows of 1-3 top-level stages (single | chain | two parallel roots | fan-in), some with 1-2 pre-declared STAGE_BEFORE and / or STAGE_AFTER children (children 1 task, parents 0-2; task results succeed | terminal | fail-continue | poll then succeed | suspend), stored through the real store, driven by the same schedule modes with ALWAYS one cancel: before a random step, or (45 %) directed into the window in which a parent waits for a planned, not yet started child (StartStage(child) queued), the CancelWorkflow then usually delivered at once; kills inside CancelWorkflow deliveries; judged by smon_c17 and the transition-table monitor;"
+        " PLUS the workflow-row engine pairs (harness/engine_pairs.py kind `wfrow`, Mode B, IMPLEMENTATION-ONLY): i -> d either fresh (StartWorkflow pending) or with every "
+        "stage done (CompleteWorkflow pending) plus a pushed CancelWorkflow; StartWorkflow / CompleteWorkflow x CancelWorkflow in both directions, B's whole delivery at EVERY "
+        "legal DB-call point of A (in particular between the status-writing handler's read of the workflow row and its commit), then FIFO drain; judged on the committed "
+        "history of the workflow row: once is_canceled = 1 was committed it is 1 at the end and no task execution begins")
 ASSUMPTIONS = ["delays are abstracted: budget-respecting schedules deliver a delayed message only when no immediate one is pending",
                "per-workflow circuit breaker disabled in the harness (volatile state outside the model)",
                "synthetic-stage family, 'had not already finished': a parent is in effect finished only if its own tasks are and every child has all task results recorded (or a failure is already decided); a parent whose tasks are done but whose after-stage has not run must end CANCELED; a child that had not started at acceptance must never start and may stay NOT_STARTED (CancelWorkflow fans out to top-level stages only) or end CANCELED; a child RUNNING / SUSPENDED at acceptance must end CANCELED",
+               "workflow-row pairs: Mode B granularity (B atomic inside a read / write window of A); 'a cancel has been processed' = a write with is_canceled = 1 was "
+               "committed; the raced handlers execute no task, so every task execution recorded after the snapshot began after that commit",
                "synthetic-stage family: the nine defects it found on the unchanged tree (S1-S9) were repaired (F44-F51); its pending gate (synth_suites.PENDING) is empty, every synth: signature is reported"]
 TRUSTED_BASE = ["Engine model (lean/Stab/Model/Engine.lean) is hand-written; tied to handlers/* by the trace differential on generated schedules only",
                 "not modelled: synthetic stages (and ContinueParentStage), mutex/deferred choice, OR-split conditions, pause/resume, timeouts, PostgreSQL backend",
                 "synthetic before/after stages are covered by an IMPLEMENTATION-ONLY family (harness/synth_suites.py): the property is stated by monitors on traces of the real engine; "
-                "no theorem and no model correspondence speaks about them; trusted there: the generator, the monitors' reading of the property (ASSUMPTIONS), the queue's dead-letter rule as replayed by the harness (op q = the real check_and_move_expired after max_attempts deliveries)"]
+                "no theorem and no model correspondence speaks about them; trusted there: the generator, the monitors' reading of the property (ASSUMPTIONS), the queue's dead-letter rule as replayed by the harness (op q = the real check_and_move_expired after max_attempts deliveries)",
+                "workflow-row engine pairs: implementation-only monitors on the trigger-recorded history of pipeline_executions and the task ledger; the model-side "
+                "counterpart is the Engine model's cancel-flag monotonicity (theorem canceled_monotone), which says nothing about a handler that writes the flag from a "
+                "stale in-memory Workflow — that is what the pairs exercise"]
 
 
 def run(ctx) -> None:
-    engine_suites.run_for(ctx, "C17")
-    # synthetic before/after stages: implementation-only family (monitors on real-engine traces, no model line)
-    synth_suites.run_for(ctx, "C17")
+    pairs = engine_pairs.start(ctx, "C17")     # workflow-row pairs run in worker processes while the trace suites run here
+    try:
+        engine_suites.run_for(ctx, "C17")
+        # synthetic before/after stages: implementation-only family (monitors on real-engine traces, no model line)
+        synth_suites.run_for(ctx, "C17")
+    except BaseException:
+        pairs["pool"].terminate()
+        raise
+    engine_pairs.finish(ctx, pairs)
 
 
 def search(ctx) -> None:
@@ -29,6 +44,9 @@ def search(ctx) -> None:
 
 
 def replay(ctx, body) -> int:
+    rp = body.get("replay") or body
+    if isinstance(rp, dict) and "enginepair" in rp:
+        return engine_pairs.replay(ctx, body, "C17")
     if synth_suites.is_synth_replay(body):
         return synth_suites.replay(ctx, body)
     return engine_suites.replay(ctx, body)
